@@ -6,8 +6,8 @@ Hand model of pdfminer/ccitt.py (import-free, executable):
   BlackIs1).  The code tables are `Gen/CcittTables.lean`, regenerated from the source on every run.
 
 Conventions: a pixel / colour is a `Bool`, `true` = 1 = white (the parser's convention).
-Uncompressed mode (`"u"`, not produced by a T.6 encoder without the optional extension) is reported
-as `Err.unmodelled`; so is `Columns ≤ 0`.
+`Err.unmodelled` marks what is outside this model: `Columns ≤ 0`, and branches that no reachable state
+takes (a run-length table handing out a mode symbol, ...).
 -/
 import PdfVerif.Model.Prelude
 import PdfVerif.Gen.CcittTables
@@ -60,12 +60,12 @@ def runTrie (color : Bool) : Trie := if color then whiteTrie else blackTrie
 inductive Err where
   | invalidData          -- CCITTG4Parser.InvalidData
   | valueError           -- PDFValueError (K ≠ -1)
-  | unmodelled           -- uncompressed mode / degenerate width: outside this model
+  | unmodelled           -- degenerate width / unreachable branch: outside this model
   deriving DecidableEq, Repr
 
 /-- Which `_accept` callback is installed. -/
 inductive Acc where
-  | mode | horiz1 | horiz2
+  | mode | horiz1 | horiz2 | unc
   deriving DecidableEq, Repr
 
 /-- What `_parse_bit` raised, if anything. -/
@@ -169,7 +169,7 @@ def parseMode (st : St) : Option Sym → Except Err (St × Sig)
   | some (.mode .p) => .ok (afterFlush (doPass st))
   | some (.mode .h) =>
     .ok ({ st with n1 := 0, acc := .horiz1, node := runTrie st.color }, .cont)
-  | some (.mode .u) => .error .unmodelled
+  | some (.mode .u) => .ok ({ st with acc := .unc, node := uncTrie }, .cont)
   | some (.mode .e) => .ok (st, .eofb)
   | some (.mode (.v d)) => .ok (afterFlush (doVertical st d))
   | some (.run n) => .ok (afterFlush (doVertical st (n : Int)))    -- isinstance(mode, int)
@@ -197,11 +197,38 @@ def parseHoriz2 (st : St) : Option Sym → Except Err (St × Sig)
       .ok ({ st with n2 := st.n2 + n, node := runTrie st.color }, .cont)
   | _ => .error .unmodelled
 
+/-- `_do_uncompressed(bits)`: `curline[curpos] = bit` (index -1 is the last pixel), `curpos += 1`,
+`_flush_line()`; the flag says that `ByteSkip` left the loop. -/
+def doUncompressed (st : St) : List Bool → St × Bool
+  | [] => (st, false)
+  | c :: cs =>
+    let k : Nat := if st.curpos < 0 then st.curline.length - 1 else st.curpos.toNat
+    let st1 := { st with curline := fill st.curline k (k + 1) c, curpos := st.curpos + 1 }
+    let (st2, skip) := flushLine st1
+    if skip then (st2, true) else doUncompressed st2 cs
+
+/-- `_parse_uncompressed(bits)` (the optional T.6 extension; "untested" according to the source). -/
+def parseUncompressed (st : St) : Option Sym → Except Err (St × Sig)
+  | none => .error .invalidData
+  | some (.unc u) =>
+    if u.term then
+      match u.bits with
+      | [] => .error .unmodelled
+      | c :: rest =>
+        let (st', skip) := doUncompressed { st with acc := .mode, color := c } rest
+        .ok ({ st' with acc := .mode, node := modeTrie }, if skip then .byteSkip else .cont)
+    else
+      let (st', skip) := doUncompressed st u.bits
+      if skip then .ok ({ st' with acc := .mode, node := modeTrie }, .byteSkip)
+      else .ok ({ st' with node := uncTrie }, .cont)
+  | _ => .error .unmodelled
+
 def accept (st : St) (v : Option Sym) : Except Err (St × Sig) :=
   match st.acc with
   | .mode => parseMode st v
   | .horiz1 => parseHoriz1 st v
   | .horiz2 => parseHoriz2 st v
+  | .unc => parseUncompressed st v
 
 /-- `_parse_bit(x)`.  While `_accept` runs, `_state` still holds the parent node, which nothing
 reads; the model clears it so that the result does not depend on it. -/
